@@ -372,5 +372,7 @@ func NewCentralSystem(endpoint *ocppj.Server, server ws.Server) CentralSystem {
 	cs.server.SetCanceledRequestHandler(func(clientID string, requestID string, request ocpp.Request, err *ocpp.Error) {
 		cs.handleCanceledRequest(clientID, request, err)
 	})
+	// Pending callbacks of a disconnected charge point are always concluded, even if the application never registers a handler
+	cs.SetChargePointDisconnectedHandler(func(chargePoint ChargePointConnection) {})
 	return &cs
 }
